@@ -7,6 +7,7 @@ the surviving operations were applied.
 """
 
 import json
+import re
 
 from verif.engines import bfs
 
@@ -183,7 +184,11 @@ def apply_forward(w, ev):
     raise ValueError(ev)
 
 
-def step(w, ev, judge_enabled=True):
+def _noaddr(t):
+    return re.sub(r" ?@(0x)?[0-9a-f]{6,}", "", t)
+
+
+def step(w, ev):
     """Apply one event of a history to the world (records outcome; marks the world dead on an unexpected exception)."""
     if w.dead:
         return
@@ -196,7 +201,7 @@ def step(w, ev, judge_enabled=True):
         try:
             w.plan.backtrack(pos)
         except Exception as e:  # judged by the oracle
-            w.dead = ("backtrack-raised", f"backtrack({pos}) raised {type(e).__name__}: {str(e)[:200]}")
+            w.dead = ("backtrack-raised", f"backtrack({pos}) raised {type(e).__name__}: {_noaddr(str(e))[:200]}")
             w.log.append((ev, "raised"))
             return
         w.bounds = w.bounds[: j + 1]
@@ -206,7 +211,7 @@ def step(w, ev, judge_enabled=True):
     try:
         out = apply_forward(w, ev)
     except Exception as e:
-        w.dead = ("forward-raised", f"{ev} raised {type(e).__name__}: {str(e)[:200]}")
+        w.dead = ("forward-raised", f"{ev} raised {type(e).__name__}: {_noaddr(str(e))[:200]}")
         w.log.append((ev, "raised"))
         return
     w.events.append(ev)
